@@ -1,18 +1,10 @@
 #![no_main]
-// bytes -> text; when it parses without diagnostics: C03 (analysis returns, scope depth 1) and the
-// semantic half of C12 (diagnostic ranges); always: the pipeline gate of C11
+// bytes -> text; when it parses without diagnostics: C03 (analysis returns, scope depth 1) and the semantic half of C12; always the pipeline gate of C11
 mod common;
 use libfuzzer_sys::fuzz_target;
-use oq3_verif_harness::pipeline::{check_c03, check_gating_source};
-use oq3_verif_harness::semprops::check_c12_semantic;
 
 fuzz_target!(|data: &[u8]| {
     common::init();
-    let text = String::from_utf8_lossy(data);
-    let mut fails = vec![];
-    if check_c03(&text, &mut fails) {
-        check_c12_semantic(&text, &mut fails);
-    }
-    check_gating_source(&text, &mut fails);
+    let (_, fails) = oq3_verif_harness::fuzzrun::oracle("fz_sema", data);
     common::judge(fails, &["C03:", "C11:", "C12:"]);
 });
